@@ -542,6 +542,8 @@ class RustFE:
             return v
         c = conc(v)
         if c is None:
+            if z3.is_bv(v):
+                return self.ctl.concretise(v)
             raise Unsupported('symbolic integer where a concrete one is needed')
         return c
 
@@ -1320,6 +1322,7 @@ def bytes_eq(a, b):
 
 
 def bound(n):
-    if n > 64:
-        raise Outcome('unwind', 'loop bound 64 exceeded (list length %d)' % n)
+    from . import core as _core
+    if n > _core.LOOP_BOUND[0]:
+        raise Outcome('unwind', 'loop bound %d exceeded (list length %d)' % (_core.LOOP_BOUND[0], n))
     return n
